@@ -4,7 +4,8 @@ A *history* is a list of calls on ONE connection (pipe / unix / tcp): fillers (c
 two *fault calls*, each followed by whatever the fault plan makes the client do, and closed by a sentinel unary call that
 must return its own value within a deadline.
 
-Fault plans (DESIGN §5 C04): method raises; stream init raises / returns a non-Stream / returns header=None for a
+Fault plans (DESIGN §5 C04): method raises; a unary result the CLIENT cannot validate / decode (Protocols differ: None for a
+non-optional result, enum member unknown to the client, a value of another type than the declared dataclass); stream init raises / returns a non-Stream / returns header=None for a
 declared header; unknown method; protocol-version rejection; parameter rejection; process() raising / emitting nothing /
 finishing an exchange at step k after logging; client close / cancel / context-manager exit after k batches (k = 0, between
 batches, at the last batch, past the end); `on_log` raising once at / from the k-th log of the call — each on
@@ -118,6 +119,12 @@ def fault_plans() -> list[dict[str, Any]]:
     for k in (0, 1, 2):
         add(f"unary/onLogOnce@{k}", uf, cu, [["call", "f", 1]], pol=["once", k])
         add(f"unary/onLogFrom@{k}", uf, cu, [["call", "f", 1]], pol=["from", k])
+    # the client cannot validate / decode the result value (its Protocol differs from the server's)
+    for x in c04util.XRET:
+        xf = {"name": "f", "kind": "unary", "xret": x, "logs": [L("f0"), L("f1")]}
+        xc = {"name": "f", "kind": "unary", "xret": x}
+        add(f"unary/decode:{x}", xf, xc, [["call", "f", 1]])
+        add(f"unary/decode:{x}+onLogFrom@1", xf, xc, [["call", "f", 1]], pol=["from", 1])
     add("unary/raises+onLogFrom@0", {**uf, "out": E}, cu, [["call", "f", 1]], pol=["from", 0])
 
     # ---- streams
@@ -226,7 +233,7 @@ def model_args(case: dict[str, Any]) -> dict[str, Any]:
     jm = []
     for m in ms:
         if m["kind"] == "unary":
-            jm.append({"kind": "unary", "logs": len(m["logs"]), "raises": "raise" in m["out"]})
+            jm.append({"kind": "unary", "logs": len(m["logs"]), "raises": "raise" in m.get("out", {})})
         else:
             init = m.get("init", "ok")
             init = "raises" if isinstance(init, dict) else init
@@ -244,7 +251,8 @@ def model_args(case: dict[str, Any]) -> dict[str, Any]:
         server_m = next((m for m in ms if m["name"] == name), None)
         req = {"method": idx.get(name, len(ms)),
                "versionOk": not (len(first) > 3 and first[3] == "badver"),
-               "paramsOk": cm[name].get("param", "a") == "a"}
+               "paramsOk": cm[name].get("param", "a") == "a",
+               "resultDecodes": cm[name].get("xret") in (None, "enum_known")}
         del server_m
         pol = ["none"] if c["pol"] is None else c["pol"]
         if first[0] == "call":
@@ -350,6 +358,11 @@ def judge(ctx: Any, case: dict[str, Any], transport: str, r: dict[str, Any], dea
     m = ctx.driver.call("C04.run", model_args(case))
     mod_ops = [[o["res"] for o in c["outs"]] for c in m["calls"]]
     obs_ops = [[classify(op, evs) for op, evs in grp] for grp in groups]
+    for c, ops in zip(case["calls"], obs_ops):
+        if "/decode:" in c["plan"]:
+            # whatever class the client's validation / decoding raises (TypeError, KeyError, ArrowInvalid wrapped as
+            # TransportError): the model's "the caller got an exception that is not the server's"
+            ops[:] = ["raised" if (o.startswith("raised") or o == "transport") else o for o in ops]
     synced = [c["synced"] for c in m["calls"]]
     model_view = {"ops": mod_ops, "c2s": [n for c in m["calls"] for n in c["c2s"]["streams"]],
                   "s2c": [n for c in m["calls"] for n in c["s2c"]["streams"]], "synced": synced,
@@ -462,7 +475,8 @@ def corpus(plans: list[dict[str, Any]]) -> list[tuple[dict[str, Any], str]]:
     ids = {p["id"]: i for i, p in enumerate(plans)}
     want = ["producer/nohdr/initRaises/full", "producer/nohdr/initRaises/exit", "producer/hdr/headerMissing/1+exit",
             "exchange/nohdr/nonStream/1+exit", "unary/onLogFrom@0", "producer/nohdr/onLogFrom@2/1+exit",
-            "producer/nohdr/unknownMethod/1+exit", "producer/nohdr/versionReject/full", "exchange/nohdr/paramReject/cancel"]
+            "producer/nohdr/unknownMethod/1+exit", "producer/nohdr/versionReject/full", "exchange/nohdr/paramReject/cancel",
+            "unary/decode:none_for_int", "unary/decode:enum_unknown", "unary/decode:int_for_dataclass", "unary/decode:bytes_for_dataclass"]
     out = []
     for w in want:
         out.append((build_case(plans, [ids[w], "u"], "producer", False), "pipe"))
